@@ -376,18 +376,66 @@ def check_scalar(ctx, prog, f, et, is_write, other_val):
     inst = f['q'].split('::')[-1] + f['sig']
     raws = [e for e in fn_exprs(f) if is_raw_transfer(e)]
     g = q.Guarded(f)
-    # exactly one raw transfer of sizeof(T) bytes
-    if len(raws) != 1:
-        ctx.violation('C16.scalar.width', name, inst + ':transfers', fwhere(f), '%d raw transfers in a scalar stream operator (expected exactly one of %d bytes)' % (len(raws), sz))
+    # exactly one raw transfer of sizeof(T) bytes runs, whatever the byte order is (sites on exclusive paths are fine)
+    import bytesets
+    problem = None
+    und = None
+    if not raws:
+        problem = 'no raw transfer in a scalar stream operator'
     else:
-        cv = const_val(raws[0]['a'][1])
-        ctx.check(cv == sz, 'C16.scalar.width', name, inst + ':width', fwhere(f, raws[0]['l']),
-                  'transfers %s bytes for a %d-byte %s' % (cv, sz, et['s']),
-                  'transfers %s bytes for a %d-byte %s' % (cv, sz, et['s']))
-        ctx.evaluations += 1
+        per_order = {}
+        for r_ in raws:
+            for key, v in site_runs(prog, f, g, r_, other_val).items():
+                per_order.setdefault(key, []).append((r_, v))
+        for key, lst in sorted(per_order.items()):
+            if any(v is None for _, v in lst):
+                und = 'guards of a raw transfer not evaluable'
+                continue
+            on = [r_ for r_, v in lst if v]
+            if len(on) != 1:
+                problem = '%d raw transfers run for byte order %s in a scalar stream operator (expected exactly one of %d bytes)' % (len(on), key[0], sz)
+        for r_ in raws:
+            try:
+                cv = bytesets.Evaluator(prog, f).ev(r_['a'][1])
+            except bytesets.Undecidable:
+                cv = const_val(r_['a'][1])
+            ctx.evaluations += 1
+            if cv is None:
+                und = und or 'byte count `%s` not evaluable' % pe(r_['a'][1])
+            elif cv != sz:
+                problem = 'transfers %s bytes for a %d-byte %s' % (cv, sz, et['s'])
+    if problem:
+        ctx.violation('C16.scalar.width', name, inst + ':width', fwhere(f, raws[0]['l'] if raws else None), problem)
+    elif und:
+        ctx.undecided('C16.scalar.width', name, inst + ':width', fwhere(f), und)
+    else:
+        ctx.ok('C16.scalar.width', name, inst + ':width', fwhere(f, raws[0]['l']), 'one transfer of %d bytes for a %d-byte %s on every path' % (sz, sz, et['s']))
     if sz == 1:
         return
     swaps = [e for e in fn_exprs(f) if e.get('k') == 'call' and e.get('pq') in ('asl::swapBytes', 'asl::bytesSwapped')]
+    if not swaps and is_write:
+        # no call of the swap helper: the bytes handed to write() are interpreted at cell level for every byte order
+        import cellsim
+        verdict = None
+        for nm, val in sorted(endian_values(prog).items()):
+            sim = cellsim.Sim(prog, f, f['params'][0]['id'], sz, bind=endian_bind(f, prog, val), sinks=('write',))
+            try:
+                sim.stmt(f['body'])
+            except cellsim.Unsupported as u:
+                verdict = ('undecided', 'body outside the interpreted fragment: %s' % u)
+                break
+            ctx.evaluations += 1
+            want = [('in', sz - 1 - j) for j in range(sz)] if val == other_val else [('in', j) for j in range(sz)]
+            if len(sim.written) != 1 or sim.written[0] != want:
+                verdict = ('bad', 'with byte order %s the operator hands write() the bytes %s of the value, expected %s' % (nm, [[c[1] if c[0] == 'in' else '?' for c in w] for w in sim.written], [c[1] for c in want]))
+                break
+        if verdict is None:
+            ctx.ok('C16.scalar.swap', name, inst + ':swap', fwhere(f), 'bytes handed to write(): reversed iff the order member is the non-native order (cell-level interpretation)')
+        elif verdict[0] == 'bad':
+            ctx.violation('C16.scalar.swap', name, inst + ':swap', fwhere(f), verdict[1])
+        else:
+            ctx.undecided('C16.scalar.swap', name, inst + ':swap', fwhere(f), verdict[1])
+        return
     if len(swaps) != 1:
         ctx.violation('C16.scalar.swap', name, inst + ':swap', fwhere(f), '%d byte-swap calls in a %d-byte scalar stream operator (expected exactly one, under the byte-order test)' % (len(swaps), sz))
         return
@@ -561,6 +609,7 @@ def check_reader(ctx, prog, other_val):
             want_b = {i: 8 * (k - 1 - i) for i in range(k)}
             want_l = {i: 8 * i for i in range(k)}
             is_src = lambda e: e.get('k') == 'mem' and e.get('f') == '_ptr'
+            byteprov.assembled.last_advance = None
             for name, val, want in (('big-endian', big, want_b), ('little-endian', little, want_l), ('native (little-endian host)', native, want_l)):
                 bind = lambda e, val=val: val if (e.get('k') == 'mem' and 'endian' in e.get('f', '').lower()) else None
                 ctx.evaluations += k
@@ -573,10 +622,12 @@ def check_reader(ctx, prog, other_val):
                           'with byte order %s the value is assembled as (byte index: shift) %s, expected %s' % (name, got, want))
                 ctx.check(not narrow, 'C16.reader', f['pq'], inst + ':shift width (%s)' % name, fwhere(f, convs[0]['l']), 'all shifted operands are wide enough',
                           'operand narrower than its shift: %s' % narrow)
-            # cursor advance
-            adv = [e for e in fn_exprs(f) if e.get('k') == 'bin' and e['op'] == '+=' and strip_lv(e['x']).get('f') == '_ptr']
-            ctx.check(len(adv) == 1 and const_val(adv[0]['y']) == k, 'C16.reader', f['pq'], inst + ':advance', fwhere(f), 'cursor advances by %d' % k,
-                      'cursor does not advance by exactly %d bytes' % k)
+            # cursor advance: total of `_ptr += n` along the interpreted path (helpers included)
+            adv_total = getattr(byteprov.assembled, 'last_advance', None)
+            if adv_total is None:
+                ctx.undecided('C16.reader', f['pq'], inst + ':advance', fwhere(f), 'cursor advance not interpreted')
+            else:
+                ctx.check(adv_total == k, 'C16.reader', f['pq'], inst + ':advance', fwhere(f), 'cursor advances by %d' % k, 'cursor advances by %s bytes, not by exactly %d' % (adv_total, k))
             # destination type has k bytes
             pt = T(f, T(f, f['params'][0]['t']).get('to'))
             ctx.check(pt.get('sz') == k, 'C16.reader', f['pq'], inst + ':target width', fwhere(f), '%s has %d bytes' % (pt.get('s'), k),
